@@ -51,9 +51,21 @@ def value_eq(a, b, path='') -> Any:
             parts.append(pa == pb)
             parts.append(z3.Implies(pa, z_bool(value_eq(sa.value, sb.value, f'{path}[{k!r}]'))))
         return z_and(*parts)
+    if isinstance(a, SList) and isinstance(b, SList) and a.name == b.name and len(a.parents) == len(b.parents):
+        # the same uninterpreted list function: equal iff applied to equal arguments
+        return z_and(*[x == y for x, y in zip(a.parents, b.parents)])
     if isinstance(a, (MList, Seq, SList)) and isinstance(b, (MList, Seq, SList)):
+        if bool(getattr(a, 'dedup', False)) != bool(getattr(b, 'dedup', False)):
+            return False      # one side removes duplicates, the other does not
         goals = seq_goals(_seq(a), _seq(b), [])
         return z_and(*[z3.Implies(z_and(*asm), g) for _, asm, g in goals])
+    if isinstance(a, MSet) and isinstance(b, MSet) and (a.nodes or b.nodes):
+        goals = seq_goals(a.as_seq(), b.as_seq(), [])
+        return z_and(*[z3.Implies(z_and(*asm), g) for _, asm, g in goals])
+    if isinstance(a, MSet) and isinstance(b, MSet) and not a.nodes and not b.nodes:
+        if len(a.items) != len(b.items):
+            return False
+        return z_and(*[z_bool(value_eq(x, y, path + '{}')) for x, y in zip(a.items, b.items)])
     if isinstance(a, MDict) and isinstance(b, MDict) and a.is_concrete() and b.is_concrete():
         if set(a.d) != set(b.d):
             return False
@@ -91,13 +103,42 @@ def subst_value(v, subst):
     from vc.pyvc.builtins_sym import subst_value as sv
     if not subst:
         return v
+    if isinstance(v, tuple):
+        return tuple(subst_value(x, subst) for x in v)
     if isinstance(v, SObj):
-        o = SObj(v.cls, {k: subst_value(x, subst) for k, x in v.attrs.items()}, v.name)
-        return o
+        new = {k: subst_value(x, subst) for k, x in v.attrs.items()}
+        if all(new[k] is v.attrs[k] for k in new):
+            return v
+        return SObj(v.cls, new, v.name)
+    if isinstance(v, SList):
+        if not v.parents or not any(_mentions(p, subst) for p in v.parents):
+            return v
+        return SList(v.name, v.make_elem, tuple(z3.substitute(p, *subst) for p in v.parents))
+    if isinstance(v, SV):
+        if not _mentions(v.z, subst) and (v.none is None or not _mentions(v.none, subst)):
+            return v
     from vc.pyvc.interp import MList
     if isinstance(v, (Seq, MList)):
         return _subst_seq(_seq(v), subst)
     return sv(v, subst)
+
+
+def _mentions(term, subst) -> bool:
+    ids = {a.get_id() for a, _ in subst}
+    stack = [term]
+    seen = set()
+    while stack:
+        x = stack.pop()
+        if x.get_id() in seen:
+            continue
+        seen.add(x.get_id())
+        if x.get_id() in ids:
+            return True
+        if z3.is_app(x):
+            stack.extend(x.children())
+        elif z3.is_quantifier(x):
+            stack.append(x.body())
+    return False
 
 
 def _subst_seq(seq: Seq, subst) -> Seq:
@@ -126,7 +167,7 @@ def seq_goals(a: Seq, b: Seq, assumptions: list, name: str = 'family') -> list:
             raise ShapeMismatch(f'{name}#{k}: different nesting depth ({len(ba)} vs {len(bb)} generators)')
         subst = []
         for x, y in zip(ba, bb):
-            if x.key is not None and y.key is not None and x.key != y.key:
+            if x.key is not None and y.key is not None and x.key[:2] != y.key[:2]:
                 raise ShapeMismatch(f'{name}#{k}: generator over {x.origin} vs {y.origin}')
             if not x.var.eq(y.var):
                 subst.append((y.var, x.var))
